@@ -399,8 +399,13 @@ func (filter *TrzszFilter) createProgressBar(quiet bool, tmuxPaneColumns int32) 
 	if color := filter.progressColorPair.Load(); color != nil {
 		colorPair = *color
 	}
-	filter.progress.Store(newTextProgressBar(filter.clientOut, filter.options.TerminalColumns,
-		tmuxPaneColumns, filter.trigger.tmuxPrefix, colorPair))
+	columns := filter.options.TerminalColumns
+	progress := newTextProgressBar(filter.clientOut, columns, tmuxPaneColumns, filter.trigger.tmuxPrefix, colorPair)
+	filter.progress.Store(progress)
+	if c := filter.options.TerminalColumns; c != columns {
+		// the terminal was resized while the bar was being created: SetTerminalColumns did not see it yet
+		progress.setTerminalColumns(c)
+	}
 }
 
 func (filter *TrzszFilter) resetProgressBar() {
